@@ -4,21 +4,16 @@
 package c13
 
 import (
-	"bufio"
 	"bytes"
 	"context"
 	"encoding/binary"
 	"encoding/json"
 	"fmt"
 	"os"
-	"os/exec"
-	"runtime"
 	"sort"
 	"strconv"
 	"strings"
-	"syscall"
 	"testing"
-	"time"
 
 	"go.uber.org/thriftrw/compile"
 	"go.uber.org/thriftrw/plugin/api"
@@ -27,6 +22,7 @@ import (
 	"go.uber.org/thriftrw/verifhook"
 	"go.uber.org/thriftrw/wire"
 	"pgregory.net/rapid"
+	"verif/internal/allocprobe"
 	"verif/internal/bridge"
 	"verif/internal/chunkio"
 	"verif/internal/ev"
@@ -38,21 +34,9 @@ import (
 func TestMain(m *testing.M) { ev.Main(m, "C13") }
 
 // Case is one message fed to one decoding API.
-type Case struct {
-	API string `json:"api"`
-	Msg []byte `json:"msg"`
-	Pos string `json:"pos"`         // which length/count position carries the hostile value
-	L   int64  `json:"l,omitempty"` // the hostile value
-}
+type Case = allocprobe.Case
 
-// Budget: a fixed constant plus a small multiple of the input size. The
-// constant covers the two documented up-front buffers (1 MiB binary threshold,
-// 10 MiB frame fast path) with slack for runtime noise.
-const (
-	allocConst   = 24 << 20
-	allocPerByte = 64
-	cpuLimit     = 2 * time.Second
-)
+const cpuLimit = allocprobe.CPULimit
 
 // ---------------------------------------------------------------- APIs
 
@@ -173,165 +157,25 @@ func callAPI(name string, msg []byte) error {
 
 var plainAPIs = []string{"ra/decode+force", "stream/skip", "stream/skip-seekable", "stream/read", "request/DecodeRequest", "request/ReadRequest"}
 
-// ---------------------------------------------------------------- child side
-
-type result struct {
-	Idx    int
-	Alloc  uint64
-	CPU    time.Duration
-	Status string // ok | err
-}
-
-func cpuNow() time.Duration {
-	var ru syscall.Rusage
-	syscall.Getrusage(syscall.RUSAGE_SELF, &ru)
-	return time.Duration(ru.Utime.Nano() + ru.Stime.Nano())
-}
+// ---------------------------------------------------------------- child / parent plumbing
 
 // TestChildAlloc is the child side: measures every case of the batch file.
 func TestChildAlloc(t *testing.T) {
-	path := os.Getenv("VERIF_CHILD_ALLOC")
-	if path == "" {
+	if !allocprobe.InChild() {
 		t.Skip("child only")
 	}
-	// Cap the address space so that a runaway allocation kills this child, not the machine.
-	lim := syscall.Rlimit{Cur: 6 << 30, Max: 6 << 30}
-	syscall.Setrlimit(syscall.RLIMIT_AS, &lim)
-	b, err := os.ReadFile(path)
-	if err != nil {
+	if err := allocprobe.ChildLoop(func(c Case) error { return callAPI(c.API, c.Msg) }); err != nil {
 		t.Fatal(err)
 	}
-	var cases []Case
-	if err := json.Unmarshal(b, &cases); err != nil {
-		t.Fatal(err)
-	}
-	start, _ := strconv.Atoi(os.Getenv("VERIF_CHILD_START"))
-	out := bufio.NewWriter(os.Stdout)
-	for i := start; i < len(cases); i++ {
-		fmt.Fprintf(out, "BEGIN %d\n", i)
-		out.Flush()
-		var m0, m1 runtime.MemStats
-		runtime.ReadMemStats(&m0)
-		c0 := cpuNow()
-		err := ev.Guard(func() error { return callAPI(cases[i].API, cases[i].Msg) })
-		c1 := cpuNow()
-		runtime.ReadMemStats(&m1)
-		st := "ok"
-		if err != nil {
-			st = "err"
-			if _, isPanic := err.(*ev.PanicError); isPanic {
-				st = "panic"
-			}
-		}
-		fmt.Fprintf(out, "RES %d %d %d %s\n", i, m1.TotalAlloc-m0.TotalAlloc, int64(c1-c0), st)
-		out.Flush()
-		if m1.HeapSys > 1<<30 {
-			runtime.GC()
-		}
-	}
-	fmt.Fprintln(out, "DONE")
-	out.Flush()
 }
 
-// ---------------------------------------------------------------- parent side
+type result = allocprobe.Result
 
-// measure runs the batch in child processes and returns one result per case;
-// a case during which the child died gets Status "killed:<reason>".
 func measure(cases []Case, scratch string) ([]result, error) {
-	f, err := os.CreateTemp(scratch, "c13-batch-*.json")
-	if err != nil {
-		return nil, err
-	}
-	defer os.Remove(f.Name())
-	json.NewEncoder(f).Encode(cases)
-	f.Close()
-	res := make([]result, len(cases))
-	start := 0
-	for start < len(cases) {
-		cmd := exec.Command(os.Args[0], "-test.run", "^TestChildAlloc$", "-test.timeout", "10m")
-		cmd.Env = append(os.Environ(), "VERIF_CHILD_ALLOC="+f.Name(), "VERIF_CHILD_START="+strconv.Itoa(start), "VERIF_STATS=", "VERIF_REPLAY=", "GOGC=100")
-		var out bytes.Buffer
-		cmd.Stdout, cmd.Stderr = &out, &out
-		if err := cmd.Start(); err != nil {
-			return nil, err
-		}
-		done := make(chan error, 1)
-		go func() { done <- cmd.Wait() }()
-		timedOut := false
-		select {
-		case <-done:
-		case <-time.After(5 * time.Minute):
-			cmd.Process.Kill()
-			<-done
-			timedOut = true
-		}
-		cur := -1
-		finished := false
-		for _, line := range strings.Split(out.String(), "\n") {
-			fs := strings.Fields(line)
-			switch {
-			case len(fs) == 2 && fs[0] == "BEGIN":
-				cur, _ = strconv.Atoi(fs[1])
-			case len(fs) == 5 && fs[0] == "RES":
-				i, _ := strconv.Atoi(fs[1])
-				a, _ := strconv.ParseUint(fs[2], 10, 64)
-				c, _ := strconv.ParseInt(fs[3], 10, 64)
-				if i >= 0 && i < len(res) {
-					res[i] = result{Idx: i, Alloc: a, CPU: time.Duration(c), Status: fs[4]}
-				}
-				if i == cur {
-					cur = -1
-				}
-			case line == "DONE":
-				finished = true
-			}
-		}
-		if finished {
-			break
-		}
-		if cur < 0 {
-			return nil, fmt.Errorf("child ended without finishing and without a case in flight: %s", tailS(out.String(), 800))
-		}
-		reason := "crash"
-		s := out.String()
-		switch {
-		case timedOut:
-			reason = "timeout"
-		case strings.Contains(s, "out of memory") || strings.Contains(s, "cannot allocate memory") || strings.Contains(s, "makeslice: len out of range") || strings.Contains(s, "makemap"):
-			reason = "oom"
-		case strings.Contains(s, "stack overflow"):
-			reason = "stack-overflow"
-		}
-		res[cur] = result{Idx: cur, Status: "killed:" + reason}
-		start = cur + 1
-	}
-	return res, nil
+	return allocprobe.Measure(cases, scratch, "^TestChildAlloc$")
 }
 
-func tailS(s string, n int) string {
-	if len(s) > n {
-		return s[len(s)-n:]
-	}
-	return s
-}
-
-// verdict applies the bound to one measured case.
-func verdict(c Case, r result) error {
-	n := int64(len(c.Msg))
-	bound := uint64(allocConst + allocPerByte*n)
-	key := fmt.Sprintf("%s/%s", c.API, c.Pos)
-	switch {
-	case strings.HasPrefix(r.Status, "killed:"):
-		return ev.Errf("killed/"+key, "decoding a %d-byte message through %s killed the process (%s); length position %s set to %d", n, c.API, strings.TrimPrefix(r.Status, "killed:"), c.Pos, c.L)
-	case r.Status == "panic":
-		return ev.Errf("panic/"+key, "decoding a %d-byte message through %s panicked; length position %s set to %d", n, c.API, c.Pos, c.L)
-	case r.Alloc > bound:
-		return ev.Errf("alloc/"+key, "decoding a %d-byte message through %s allocated %d bytes (bound %d); length position %s set to %d", n, c.API, r.Alloc, bound, c.Pos, c.L)
-	case r.CPU > cpuLimit:
-		return ev.Errf("cpu/"+key, "decoding a %d-byte message through %s used %v CPU (limit %v); length position %s set to %d", n, c.API, r.CPU, cpuLimit, c.Pos, c.L)
-	}
-	return nil
-}
+func verdict(c Case, r result) error { return allocprobe.Verdict(c, r) }
 
 func scratchDir(t testing.TB) string {
 	if s := os.Getenv("VERIF_SCRATCH"); s != "" {
